@@ -32,12 +32,12 @@ THEOREMS = ["C08_mean_obliquity_polynomial", "C08_mean_obliquity_vs_IAU", "C08_t
             "C08_earth_callee_shape", "C08_sun_geometric_unconditional", "C08_rectangular_of_date_norm_unconditional",
             "C08_earth_j2000_callee_shape", "C08_rectangular_j2000_norm_unconditional",
             "C08_rectangular_equinox_norm_unconditional", "C08_true_minus_mean_bound",
-            "C08_sun_apparent_unconditional"]
+            "C08_sun_apparent_unconditional", "C08_nutation_shapes_wide"]
 PROOF_TIMEOUT = {"quick": 2200, "thorough": 3000}
 EXHAUSTIVE = False
 MANIFEST = {
     "category": "proof",
-    "text": "Ideal (real-number) instance of the regenerated model, Epoch arguments. PROPERTY CLAUSES PROVED: mean obliquity = Laskar polynomial and within 3 arcsec of the IAU cubic for |T| <= 20; nutation in longitude / obliquity within 3.5 / 1.5 arcsec of the main term on the Moon module's node for |T| <= 20 (generic loop theorem instantiated on the generated double loop, amplitude sums over the extracted tables, node polynomials bridged on both sides); true obliquity = mean + nutation unconditionally for |T| <= 20; Sun geometric position = Earth's reflected, unconditionally for tofk5 = True over years -2000..6000 (the Earth callee's result shape and |lat| <= 0.00065 deg are proved from property C07's imported theorems about the VSOP87 evaluator and the regenerated tables); apparent position likewise for nutation = True over years 0..4000; the flag-off variants (tofk5 = False, nutation = False) stay CONDITIONAL on the callee's documented shape (validated by the correspondence every run; errors propagate); rectangular norms, all unconditional: of date | |xyz|/r - 1 | <= 2e-10 (exactly norm^2 = r^2 (1 + sin^2 lat): the code takes cos(lat) = 1 as Meeus does), J2000 and arbitrary equinox 2e-12; |true - mean obliquity| <= 9.2025 + 0.00089|T| + 0.89 arcsec. REFUTED IN COQ (known findings): B1950 norm (~ C08_b1950_norm_full), equinox rotation vs Meeus T = 0 beyond 2 arcsec (~ C08_equinox_frame_full). CLOSED FORMS THAT ONLY PIN THE CODE (no property clause follows): rectangular_coordinates_j2000/_b1950/_equinox, true/apparent_longitude_coarse, Moon.longitude_mean_ascending_node. UNPROVED, SEARCHED ONLY: frame agreement with the library's precession (2 arcsec / 1e-5 AU; 3 genuine defects recorded as bounded known findings), coarse vs VSOP87 0.02 degree, date-argument forms other than Epoch, everything about binary64 rounding.",
+    "text": "Ideal (real-number) instance of the regenerated model, Epoch arguments. PROPERTY CLAUSES PROVED: mean obliquity = Laskar polynomial and within 3 arcsec of the IAU cubic for |T| <= 20; nutation in longitude / obliquity within 3.5 / 1.5 arcsec of the main term on the Moon module's node for |T| <= 20 (generic loop theorem instantiated on the generated double loop, amplitude sums over the extracted tables, node polynomials bridged on both sides); true obliquity = mean + nutation unconditionally for |T| <= 20; Sun geometric position = Earth's reflected, unconditionally for tofk5 = True over years -2000..6000 (the Earth callee's result shape and |lat| <= 0.00065 deg are proved from property C07's imported theorems about the VSOP87 evaluator and the regenerated tables); apparent position likewise for nutation = True over years -2000..6000; the flag-off variants (tofk5 = False, nutation = False) stay CONDITIONAL on the callee's documented shape (validated by the correspondence every run; errors propagate); rectangular norms, all unconditional: of date | |xyz|/r - 1 | <= 2e-10 (exactly norm^2 = r^2 (1 + sin^2 lat): the code takes cos(lat) = 1 as Meeus does), J2000 and arbitrary equinox 2e-12; |true - mean obliquity| <= 9.2025 + 0.00089|T| + 0.89 arcsec. REFUTED IN COQ (known findings): B1950 norm (~ C08_b1950_norm_full), equinox rotation vs Meeus T = 0 beyond 2 arcsec (~ C08_equinox_frame_full). CLOSED FORMS THAT ONLY PIN THE CODE (no property clause follows): rectangular_coordinates_j2000/_b1950/_equinox, true/apparent_longitude_coarse, Moon.longitude_mean_ascending_node. UNPROVED, SEARCHED ONLY: frame agreement with the library's precession (2 arcsec / 1e-5 AU; 3 genuine defects recorded as bounded known findings), coarse vs VSOP87 0.02 degree, date-argument forms other than Epoch, everything about binary64 rounding.",
     "technique": "symbolic evaluation (pyrun / call-by-value pyrunv) of the generated model over the reals with opaque callees + interval/lra/ring; generated model + bit-exact differential correspondence; dense search for the numeric clauses",
     "design_ref": "8/C08",
 }
@@ -53,8 +53,8 @@ CLAUSES = {
     #          "closed form (pins the code)" = the generated function equals an explicit formula: a mutation of any
     #          constant/sign breaks the proof, but no clause of the property follows from it.
     "Sun geometric position = Earth position reflected (lon+180 reduced to [0,360), -lat, same r)": "property clause proved [ideal]: for any result of the Earth callee of the documented shape, tofk5 on/off (C08_sun_geometric_is_earth_reflected; callee errors propagate: C08_sun_errors_propagate); UNCONDITIONALLY for tofk5 = True and every epoch in years -2000..6000 (C08_sun_geometric_unconditional): the callee's shape is itself proved (C08_earth_callee_shape, from property C07's imported theorems: VSOP87 evaluator = direct sum over the regenerated tables, FK5 correction, amplitude envelope), with |latitude| <= 0.00065 degree. tofk5 = False: still conditional on the shape",
-    "Sun apparent position = Earth apparent position reflected": "property clause proved [ideal]: for any result of the Earth callee of the documented shape, nutation on/off (C08_sun_apparent_is_earth_reflected; callee errors propagate); UNCONDITIONALLY for nutation = True and years 0..4000 (C08_sun_apparent_unconditional): apparent_vsop_pos on the Earth's tables = vsop_pos + FK5 + nutation (C08 structure theorem) + aberration (property C07's imported theorems), |lat| <= 0.00065 deg, 0.97 <= r <= 1.03 AU. nutation = False: still conditional on the shape; the code contains no step beyond the reflection",
-    "rectangular coordinates of date have norm r": "property clause proved [ideal, Epoch argument, years 0..4000], unconditionally: C08_rectangular_of_date_norm_unconditional: r^2 <= x^2+y^2+z^2 <= r^2 (1 + 4e-10), i.e. | |xyz|/r - 1 | <= 2e-10, against the 1e-5 AU of the property. The exact identity is norm^2 = r^2 (1 + sin^2 lat) (C08_rectangular_of_date_norm): the code follows Meeus (ch. 26: beta never exceeds 1.2 arcsec, cos beta taken as 1) and leaves out the factor cos(lat); the Sun's latitude is bounded by C08_earth_callee_shape (|lat| <= 0.00065 deg = amplitude sum 2.24 arcsec of the Earth's VSOP87 B series for |t| <= 4 millennia + FK5 term). On the implementation: worst | |xyz|/r - 1 | = 1.66e-11 over -16000..+16000 months around J2000 (at JDE 2304298.89, lat = 1.19 arcsec), equal to the predicted sqrt(1 + sin^2 lat) - 1: not a finding",
+    "Sun apparent position = Earth apparent position reflected": "property clause proved [ideal]: for any result of the Earth callee of the documented shape, nutation on/off (C08_sun_apparent_is_earth_reflected; callee errors propagate); UNCONDITIONALLY for nutation = True and |T| <= 40 centuries = years -2000..6000 (C08_sun_apparent_unconditional; nutation shape over that range: C08_nutation_shapes_wide): apparent_vsop_pos on the Earth's tables = vsop_pos + FK5 + nutation (C08 structure theorem) + aberration (property C07's imported theorems), |lat| <= 0.00065 deg, 0.97 <= r <= 1.03 AU. nutation = False: still conditional on the shape; the code contains no step beyond the reflection",
+    "rectangular coordinates of date have norm r": "property clause proved [ideal, Epoch argument, years -2000..6000], unconditionally: C08_rectangular_of_date_norm_unconditional: r^2 <= x^2+y^2+z^2 <= r^2 (1 + 4e-10), i.e. | |xyz|/r - 1 | <= 2e-10, against the 1e-5 AU of the property. The exact identity is norm^2 = r^2 (1 + sin^2 lat) (C08_rectangular_of_date_norm): the code follows Meeus (ch. 26: beta never exceeds 1.2 arcsec, cos beta taken as 1) and leaves out the factor cos(lat); the Sun's latitude is bounded by C08_earth_callee_shape (|lat| <= 0.00065 deg = amplitude sum 2.24 arcsec of the Earth's VSOP87 B series for |t| <= 4 millennia + FK5 term). On the implementation: worst | |xyz|/r - 1 | = 1.66e-11 over -16000..+16000 months around J2000 (at JDE 2304298.89, lat = 1.19 arcsec), equal to the predicted sqrt(1 + sin^2 lat) - 1: not a finding",
     "J2000 rectangular coordinates have norm r": "property clause proved [ideal] to 2e-12 relative (constant matrix with |M^T M - I| <= 2e-12), unconditionally for every epoch in years -2000..6000 (C08_rectangular_j2000_norm_unconditional: the J2000 Earth callee's result shape is proved, C08_earth_j2000_callee_shape)",
     "arbitrary-equinox rectangular coordinates have norm r": "property clause proved [ideal] to 2e-12 relative, unconditionally (C08_rectangular_equinox_norm_unconditional; equinox within 3 centuries of J2000.0, JDE 2.0e6..2.9e6): closed form (pins the code) of the generated function = rotation of the J2000 vector, that rotation is exactly orthogonal for all angles (C08_rectangular_equinox_norm), J2000 norm as above",
     "B1950 rectangular coordinates have norm r": "refuted: known finding norm-b1950 - closed form (pins the code) of the generated body (y uses the already rotated x, z the rotated x and y) and ~ C08_b1950_norm_full proved with the witness lon = 90, lat = 0, r = 1 (norm off by > 1e-7); implementation witness Sun.rectangular_coordinates_b1950(Epoch(2089055.144)): norm 1.00744, r = 1.01526",
@@ -82,7 +82,7 @@ def proof_files(tier):
              "C08_equinox.v", "C08_coarse.v", "C08_node.v",
              "C08_nut_angle.v", "C08_nut_loop.v", "C08_nut_main.v", "C08_nut_bound.v", "C08_true.v", "C08_eqeq.v"]
             + ["../C07/" + f for f in C07_DEPS]
-            + ["C08_lat.v", "C08_latj.v", "C08_uncond.v", "C08_app.v", "C08.v"]
+            + ["C08_lat.v", "C08_latj.v", "C08_uncond.v", "C08_wide.v", "C08_app.v", "C08.v"]
             + ["C08_pa_%d.v" % k for k in range(N_PA)])
 
 
